@@ -243,7 +243,7 @@ class MethodPropertyRule(MultiLanguageLintRule):  # thailint: ignore[srp,dry]
         """
         try:
             return ast.parse(code or "")
-        except SyntaxError:
+        except (SyntaxError, RecursionError, MemoryError):
             return None
 
     def _collect_violations(
